@@ -1514,6 +1514,9 @@ def _run(chk, rng, thorough, ok, C, R, tmp):
     # ---- formats and encodings: the plumbing options of canconvert as a second dimension ----
     formats_section(chk, rng, thorough, C, R, tmp, inputs, judge, replay_input)
 
+    # ---- an object addressed again AFTER an earlier stage edited it, on matrices of every provenance ----
+    stale_section(chk, thorough, R, tmp, inputs, judge, replay_input)
+
     # ---- the command line knows every option convert() implements ----
     for opt in PIPELINE_ORDER:
         chk.case(("declared", opt), True)
@@ -1904,3 +1907,78 @@ def formats_section(chk, rng, thorough, C, R, tmp, inputs, judge, replay_input):
                     report("format-%s-%s" % (vname, mname) if fail[0] == "effect" else fail[0],
                            "%s with %s: %s" % (" ".join("--" + o for o, _ in opts), vname, fail[1]), inp, opts, fail[2], fail[3],
                            dict(plumbing=kw.get("plumb"), variant=vname))
+
+
+# ------------------------------------------------------------------------------------------------------------------
+# addressing an object after an earlier stage has edited it
+def stale_cases(st, frame_old, ecu_old):
+    """[(kind, earlier stage, later stage)]: the earlier stage renames / renumbers an object, the later stage addresses it by
+    its OLD name / number (nothing carries it any more: documented effect = none), by the new one, or by both"""
+    f0 = [f for f in st["frames"].values() if f["name"] == frame_old][0]
+    s0 = f0["signal_order"][0]
+    gap = [f for f in st["frames"].values() if f["name"] == "FGapFrame"][0]
+    cs = []
+    add = lambda later, earlier, a, b: cs.append(("%s-after-%s" % (later, earlier), a, b))
+    ren = ("renameFrame", frame_old + ":FNewName")
+    for later in ("deleteFrame", "setFrameFd", "unsetFrameFd"):
+        add(later, "renameFrame", ren, (later, frame_old))
+        add(later, "renameFrame", ren, (later, frame_old + ",FNope"))
+        add(later, "renameFrame", ren, (later, "FNewName," + frame_old))
+    add("addFrameReceiver", "renameFrame", ren, ("addFrameReceiver", frame_old + ":ENewRcv"))
+    add("compressFrame", "renameFrame", ("renameFrame", "FGapFrame:FNewName"), ("compressFrame", "FGapFrame"))
+    add("deleteSignal", "renameSignal", ("renameSignal", s0 + ":SNewName"), ("deleteSignal", s0))
+    add("deleteSignal", "renameSignal", ("renameSignal", "SGapB:SNewName"), ("deleteSignal", "SGapB,SNewNam?"))
+    add("deleteEcu", "renameEcu", ("renameEcu", ecu_old + ":ENewName"), ("deleteEcu", ecu_old))
+    add("addFrameReceiver", "renameEcu", ("renameEcu", ecu_old + ":ENewName"), ("addFrameReceiver", "FGapFrame:" + ecu_old))
+    add("changeFrameId", "frameIdIncrement", ("frameIdIncrement", "1"), ("changeFrameId", "%d:%d" % (gap["id"], gap["id"] + 3)))
+    add("changeFrameId", "changeFrameId", ("changeFrameId", "%d:%d,%d:%d" % (gap["id"], gap["id"] + 2, gap["id"], gap["id"] + 3)), None)
+    return cs
+
+
+def stale_section(chk, thorough, R, tmp, inputs, judge, replay_input):
+    """Every stage must see the matrix as the stages before it left it, whatever way the frames got into the matrix: read from
+    a DBC file, read from another format (other readers build the matrix through other calls), copied into a new matrix by
+    --frames / --ecus, or merged in from a second file.  Oracle: the documented effects composed in pipeline order (a name that
+    nothing carries any more addresses nothing)."""
+    dump, load = R._orig[0], R._orig[1]
+    n = 2 if not thorough else 12
+    for inp in inputs[:n]:
+        st = inp["st"]
+        F = [f["name"] for f in frames_in_order(st)]
+        nonfd = [f["name"] for f in frames_in_order(st) if not f["is_fd"] and f["signals"]][0]
+        E = [e for e in st["ecus"] if e not in ("EGapOnly", "ERcvOnly") and not e.startswith(("EUnused", "EGw"))]
+        json_path = os.path.join(tmp, "stale_in.json")
+        in_db = list(load(inp["path"]).values())[0]
+        dump({"": in_db}, json_path, jsonExportAll=True)
+        norm = os.path.join(tmp, "stale_norm.dbc")
+        dump({"": list(load(json_path).values())[0]}, norm)
+        json_st = describe(list(load(norm).values())[0])
+        OF = [f["name"] for f in frames_in_order(inp["other_st"])]
+        provenances = [
+            ("dbc-input", [], {}, nonfd),
+            ("json-input", [], dict(st=json_st, path=json_path, level="layout"), nonfd),
+            ("copied-by-frames", [("frames", ",".join(F))], {}, nonfd),
+            ("copied-by-ecus", [("ecus", "*")], {}, nonfd),
+            ("merged-in", [("merge", inp["other_path"])], {}, OF[1]),
+        ]
+        for pname, prefix, kw, frame_old in provenances:
+            base_st = dict(st, frames=dict(st["frames"]))
+            cases = stale_cases(st if pname != "merged-in" else
+                                dict(st, frames=dict(list(st["frames"].items()) + list(inp["other_st"]["frames"].items()))),
+                                frame_old, E[0])
+            for kind, first, second in cases:
+                opts = prefix + [first] + ([second] if second else [])
+                if "compressFrame" in [o for o, _ in opts]:
+                    if pname != "dbc-input":
+                        continue
+                    fail, nontrivial, res = judge_compress(chk, R, inp, opts)
+                else:
+                    fail, nontrivial, res, exp = judge(inp, opts, 0, **kw)
+                chk.count("stale-%s" % kind)
+                chk.count("stale-provenance-%s" % pname)
+                chk.case(("stale", inp["idx"], pname, kind, opts[-1][1]), True)
+                if fail is not None:
+                    key = fail[0] if fail[0] in ("cli-vs-function", "cli-option-missing") else "stale-%s" % kind
+                    chk.violation(key, "%s on a matrix %s: a stage does not see the matrix as the stage before it left it: %s"
+                                  % (" ".join("--" + o for o, _ in opts), pname, fail[1]),
+                                  dict(replay_input(inp, opts), provenance=pname, plumbing=kw.get("plumb")), fail[2], fail[3])
